@@ -160,6 +160,21 @@ func vhNewParty(side uint64, v3 bool) *vhParty {
 	return p
 }
 
+// vhUseSmallGroup replaces the 1536-bit DH group by the group modulo the
+// Mersenne prime 2^61-1 (generator 2).  The data-message code does not depend
+// on the group size except through MPI lengths; the bound is stated in the
+// evidence of every harness that uses it.
+func vhUseSmallGroup() {
+	vhMPILen = 8
+	p = new(big.Int).SetUint64(2305843009213693951)
+	pMinusTwo = sub(p, big.NewInt(2))
+	q = new(big.Int).SetUint64(1152921504606846975)
+	pct = new(constbn.Int).SetBigInt(p)
+	vNote("DH group reduced to Z_p^* with p = 2^61-1 (MPIs of 8 bytes) for this harness; the 1536-bit group is exercised by VH_C04_step and the AKE harnesses")
+}
+
+var vhMPILen = 192
+
 // vhPriv: the DH private key of party `side` with key id `id`, as an
 // uninterpreted function of (side, id) — ids stay fully symbolic.
 func vhPriv(side uint64, id uint32) []byte {
